@@ -18,6 +18,21 @@ class Head(packet.Packet):
         formats.UInt8Field('version', default=None),
     ]
 
+    def pre_dissect(self, s):
+        ''' Wait for the entire fixed-size part before decoding. '''
+        if len(s) < 5:
+            raise formats.VerifyError('Contact header is missing data')
+        return s
+
+    def post_dissection(self, pkt):
+        ''' Keep trailing data for later and verify consistency of packet. '''
+        formats.remove_padding(self)
+
+        if not self.payload and self.guess_payload_class(b'') is not self.default_payload_class(b''):
+            raise formats.VerifyError('Contact header without version-specific data')
+
+        packet.Packet.post_dissection(self, pkt)
+
 
 class ContactV3(formats.NoPayloadPacket):
     ''' TCPCLv3 contact header pseudo-message. '''
